@@ -39,7 +39,7 @@ def instantiate_code(symbol, code, inject={}):
 
 
 dispatch_template = """
-def __WRAP_DISPATCH__(OVLD):
+def __WRAP_DISPATCH__({ovld}):
     def __DISPATCH__({args}):
         {body}
 
@@ -48,7 +48,7 @@ def __WRAP_DISPATCH__(OVLD):
 
 
 call_template = """
-{mvar} = OVLD.map[({lookup})]
+{mvar} = {ovld}.map[({lookup})]
 return {mvar}({posargs})
 """
 
@@ -86,16 +86,21 @@ def generate_dispatch(ov, arganal):
     def lookup_for(x):
         return ndb[arganal.lookup_for(x)]
 
-    for name in spr + spo + pr + po + kr:
+    for name in spr + spo + pr + po + kr + ko:
         ndb.register(name)
 
+    # None of the generated identifiers may be captured by a parameter name
     mv = ndb.gensym(desired_name="method")
+    ovld_name = ndb.gensym(desired_name="OVLD")
+    missing = ndb.gensym(desired_name="MISSING")
+    kwargs_name = ndb.gensym(desired_name="KWARGS")
+    targs_name = ndb.gensym(desired_name="TARGS")
 
     for name in spr + spo:
         if name in spr:
             args.append(name)
         else:
-            args.append(f"{name}=MISSING")
+            args.append(f"{name}={missing}")
         posargs.append(name)
         lookup.append(f"{lookup_for(i)}({name})")
         i += 1
@@ -111,7 +116,7 @@ def generate_dispatch(ov, arganal):
         if name in pr:
             args.append(name)
         else:
-            args.append(f"{name}=MISSING")
+            args.append(f"{name}={missing}")
         posargs.append(name)
         lookup.append(f"{lookup_for(i)}({name})")
         i += 1
@@ -128,14 +133,16 @@ def generate_dispatch(ov, arganal):
         lookup.append(f"({name!r}, {lookup_for(name)}({name}))")
 
     for name in ko:
-        args.append(f"{name}=MISSING")
-        kwargsstar = "**KWARGS"
-        targsstar = "*TARGS"
-        inits.add("KWARGS = {}")
-        inits.add("TARGS = []")
-        body.append(f"if {name} is not MISSING:")
-        body.append(f"    KWARGS[{name!r}] = {name}")
-        body.append(f"    TARGS.append(({name!r}, {lookup_for(name)}({name})))")
+        args.append(f"{name}={missing}")
+        kwargsstar = f"**{kwargs_name}"
+        targsstar = f"*{targs_name}"
+        inits.add(f"{kwargs_name} = {{}}")
+        inits.add(f"{targs_name} = []")
+        body.append(f"if {name} is not {missing}:")
+        body.append(f"    {kwargs_name}[{name!r}] = {name}")
+        body.append(
+            f"    {targs_name}.append(({name!r}, {lookup_for(name)}({name})))"
+        )
 
     posargs.append(kwargsstar)
     lookup.append(targsstar)
@@ -144,6 +151,7 @@ def generate_dispatch(ov, arganal):
         lookup=join(lookup, trail=True),
         posargs=join(posargs),
         mvar=mv,
+        ovld=ovld_name,
     )
 
     calls = []
@@ -156,18 +164,20 @@ def generate_dispatch(ov, arganal):
                 lookup=join(lookup[: req + i] + lookup[npos:], trail=True),
                 posargs=join(posargs[: req + i + 1] + posargs[npos + 1 :]),
                 mvar=mv,
+                ovld=ovld_name,
             )
             call = textwrap.indent(call, "        ")
-            calls.append(f"\nif {arg} is MISSING:{call}")
+            calls.append(f"\nif {arg} is {missing}:{call}")
     calls.append(fullcall)
 
     lines = [*inits, *body, textwrap.indent("".join(calls), "        ")]
     code = dispatch_template.format(
         args=join(args),
         body=join(lines, sep="\n        ").lstrip(),
+        ovld=ovld_name,
     )
     wr = instantiate_code(
-        "__WRAP_DISPATCH__", code, inject={"MISSING": MISSING, **ndb.variables}
+        "__WRAP_DISPATCH__", code, inject={missing: MISSING, **ndb.variables}
     )
     return wr(ov)
 
